@@ -3,7 +3,7 @@
    dimensions, membership [in_dim]/[in_space], the per-cell inverse transform [inv_cell] (REPAIRED code: Real clips,
    fixes/F02) and [inverse_row]; every numeric step of the code is an oracle (Section variables R, lg, pw) and every
    theorem quantifies over them.  The model describes /repo at HEAD *plus* the repairs proposed with this property
-   (fixes/F03 + fixes/F47: the one-shot strategies topk / boltzmann inverse-transform what they return and give inactive
+   (fixes/F03 + fixes/F49: the one-shot strategies topk / boltzmann inverse-transform what they return and give inactive
    dimensions their canonical value again); the pinned behaviour of those two branches is the [Pinned] variant, the
    intermediate one (F03 alone) the [Decoded] variant; Property.v proves a refutation for each.
 
@@ -169,7 +169,7 @@ Fixpoint canon_row (sp : space) (act : list bool) (row : list Q) : list Q :=
 (* ------------------------------------------------------------------------------------------------ 4. the ask automaton *)
 Inductive strat := StCL | StTopk | StBoltz | StQ.    (* cl_min / cl_mean / cl_max | topk | boltzmann | qLCB / qLCBd *)
 (* one-shot branches: Pinned = rows of _last_X as they are (before fixes/F03); Decoded = inverse_transform only (fixes/F03
-   alone); Fixed = inverse_transform then deactivate_inactive_dimensions (fixes/F03 + fixes/F47) *)
+   alone); Fixed = inverse_transform then deactivate_inactive_dimensions (fixes/F03 + fixes/F49) *)
 Inductive variant := Pinned | Decoded | Fixed.
 Inductive branch :=
 | BSingleInit      (* _ask: next initial sample *)
@@ -244,7 +244,7 @@ Section Automaton.
 
   Definition oneshot_point (zt : list Q) : list Q :=
     match v with
-    | Fixed => deactivate (inverse_row R lg pw sp zt)   (* fixes/F03 + fixes/F47 *)
+    | Fixed => deactivate (inverse_row R lg pw sp zt)   (* fixes/F03 + fixes/F49 *)
     | Decoded => inverse_row R lg pw sp zt              (* fixes/F03 alone: the round trip is not exact, inactive values drift *)
     | Pinned => zt                                      (* pinned code: self._last_X[idx].tolist() - a TRANSFORMED row *)
     end.
